@@ -3,6 +3,7 @@ package inputroot
 import (
 	"fmt"
 	"sort"
+	"strings"
 
 	remoteexecution "github.com/bazelbuild/remote-apis/build/bazel/remote/execution/v2"
 	"github.com/buildbarn/bb-storage/pkg/digest"
@@ -135,6 +136,38 @@ func drawDir(rt *rapid.T, g *dagSpec, h, lower int) dirSpec {
 		d.Entries = append(d.Entries, entrySpec{Name: take(), Kind: kindSymlink, Target: rapid.SampledFrom(symlinkTargets).Draw(rt, "target")})
 	}
 	return d
+}
+
+// caseCollision reports whether two entries of the directory have names
+// that differ only by case.
+func (d *dirSpec) caseCollision() bool {
+	seen := map[string]bool{}
+	for _, e := range d.Entries {
+		l := strings.ToLower(e.Name)
+		if seen[l] {
+			return true
+		}
+		seen[l] = true
+	}
+	return false
+}
+
+// decollide renames entries so that no two names of one directory differ
+// only by case; it returns how many entries it renamed.
+func (g *dagSpec) decollide() int {
+	renamed := 0
+	for t := range g.Dirs {
+		seen := map[string]bool{}
+		for i := range g.Dirs[t].Entries {
+			e := &g.Dirs[t].Entries[i]
+			for seen[strings.ToLower(e.Name)] {
+				e.Name += "2"
+				renamed++
+			}
+			seen[strings.ToLower(e.Name)] = true
+		}
+	}
+	return renamed
 }
 
 // sharedTemplates returns, per template, in how many places of the
